@@ -50,6 +50,22 @@ def run_demo(tree, demo):
     return rc, out
 
 
+def extract_needs(txt):
+    """What the change needs in order to manifest, taken from the author's notes: the paragraph / bullet
+    that talks about it (heading "what it needs", "Needs:", "Manifests ...")."""
+    paras = [re.sub(r"\s+", " ", p).strip() for p in re.split(r"\n\s*\n|\n(?=[#*-] )", txt)]
+    pats = [r"(?i)what (it|this) needs", r"(?i)\bneeds?\b.*\b(manifest|show|trigger|expose)", r"(?i)^[#*\- ]*\**needs\b", r"(?i)\bmanifests?\b", r"(?i)to (trigger|expose|observe) (it|the)", r"(?i)\brequires?\b"]
+    for pat in pats:
+        for i, p in enumerate(paras):
+            if re.search(pat, p):
+                body = p
+                # a heading alone: take the following paragraph
+                if len(re.sub(r"[#*`]", "", p)) < 60 and i + 1 < len(paras):
+                    body = p + " " + paras[i + 1]
+                return re.sub(r"^[#*\- ]+", "", body)[:500]
+    return "see notes.md"
+
+
 def main():
     pid, n = sys.argv[1], sys.argv[2]
     args = sys.argv[3:]
@@ -126,6 +142,8 @@ def main():
     if not summary:
         body = [l.strip() for l in txt.splitlines() if l.strip() and not l.startswith("#")]
         summary = " ".join(body)[:400]
+    if not needs:
+        needs = extract_needs(txt)
     meta = {
         "property": pid,
         "summary": summary,
